@@ -1,1 +1,269 @@
-//! Layer 2: virtual threads (placeholder until the lock facade hook lands).
+//! Layer 2: virtual threads.
+//!
+//! A virtual thread is a real OS thread, but exactly one of them holds the *baton* at any time; the
+//! others are parked on their own condition variable.  The baton moves only at scheduling points:
+//! before every acquisition of an engine lock (hook H3), when a lock turns out to be held by another
+//! virtual thread (forced), at the executor's task boundaries and when a virtual thread finishes.
+//! Which thread gets the baton, and whether a lock point preempts at all, are traced decisions of
+//! the simulation, so an interleaving is exactly a decision trace and replays.
+//!
+//! OS threads (not coroutines) on purpose: the engine's `task_local!` scope is thread-local state
+//! and QuickJS checks its C stack.
+use crate::site;
+use std::cell::Cell;
+use std::sync::{Arc, Condvar, Mutex};
+
+#[derive(Clone, Copy, PartialEq, Debug)]
+enum St {
+    Runnable,
+    /// failed a try-lock: eligible again once another thread has passed a scheduling point
+    Blocked,
+    /// the executor thread with no ready task: runnable again when a task becomes ready
+    Idle,
+    Done,
+}
+
+struct Shared {
+    cur: usize,
+    st: Vec<St>,
+    names: Vec<String>,
+    preempt_permille: u32,
+    pub points: u64,
+    pub switches: u64,
+    pub forced: u64,
+    deadlock: Option<String>,
+}
+
+struct Group {
+    m: Mutex<Shared>,
+    cvs: Vec<Condvar>,
+}
+
+static GROUP: Mutex<Option<Arc<Group>>> = Mutex::new(None);
+
+thread_local! {
+    static ME: Cell<usize> = const { Cell::new(usize::MAX) };
+}
+
+pub const MAX_THREADS: usize = 16;
+
+pub struct Stats {
+    pub points: u64,
+    pub switches: u64,
+    pub forced: u64,
+    pub deadlock: Option<String>,
+}
+
+fn group() -> Option<Arc<Group>> {
+    GROUP.lock().unwrap_or_else(|e| e.into_inner()).clone()
+}
+
+/// start a group; the calling thread becomes virtual thread 0 and holds the baton
+pub fn begin(preempt_permille: u32) {
+    let g = Arc::new(Group {
+        m: Mutex::new(Shared { cur: 0, st: vec![St::Runnable], names: vec!["main".into()], preempt_permille, points: 0, switches: 0, forced: 0, deadlock: None }),
+        cvs: (0..MAX_THREADS).map(|_| Condvar::new()).collect(),
+    });
+    *GROUP.lock().unwrap_or_else(|e| e.into_inner()) = Some(g);
+    ME.with(|m| m.set(0));
+}
+
+pub fn end() -> Stats {
+    let g = GROUP.lock().unwrap_or_else(|e| e.into_inner()).take();
+    ME.with(|m| m.set(usize::MAX));
+    match g {
+        Some(g) => {
+            let s = g.m.lock().unwrap_or_else(|e| e.into_inner());
+            Stats { points: s.points, switches: s.switches, forced: s.forced, deadlock: s.deadlock.clone() }
+        }
+        None => Stats { points: 0, switches: 0, forced: 0, deadlock: None },
+    }
+}
+
+pub fn active() -> bool {
+    ME.with(|m| m.get()) != usize::MAX && group().is_some()
+}
+
+/// spawn a virtual thread; it first runs when the baton is handed to it.  Called by the baton holder;
+/// returns after the new OS thread has started and parked (deterministic thread creation order)
+pub fn spawn(name: &str, f: impl FnOnce() + Send + 'static) -> std::thread::JoinHandle<()> {
+    let g = group().expect("vthread::spawn outside of a group");
+    let id = {
+        let mut s = g.m.lock().unwrap();
+        let id = s.st.len();
+        assert!(id < MAX_THREADS, "too many virtual threads");
+        s.st.push(St::Runnable);
+        s.names.push(name.to_string());
+        id
+    };
+    let started = Arc::new((Mutex::new(false), Condvar::new()));
+    let started2 = started.clone();
+    let g2 = g.clone();
+    let h = std::thread::Builder::new()
+        .name(format!("vt-{}", name))
+        .stack_size(16 << 20)
+        .spawn(move || {
+            // fix this thread's RandomState keys before anything else (deterministic per thread index)
+            let _ = std::collections::hash_map::RandomState::new();
+            ME.with(|m| m.set(id));
+            {
+                let (m, cv) = &*started2;
+                *m.lock().unwrap() = true;
+                cv.notify_all();
+            }
+            // wait for the baton
+            {
+                let mut s = g2.m.lock().unwrap();
+                while s.cur != id {
+                    s = g2.cvs[id].wait(s).unwrap();
+                }
+            }
+            let r = std::panic::catch_unwind(std::panic::AssertUnwindSafe(f));
+            let _ = r;
+            finish();
+        })
+        .expect("spawn vthread");
+    let (m, cv) = &*started;
+    let mut ok = m.lock().unwrap();
+    while !*ok {
+        ok = cv.wait(ok).unwrap();
+    }
+    h
+}
+
+fn eligible(s: &Shared, i: usize, ready: bool) -> bool {
+    match s.st[i] {
+        St::Runnable => true,
+        St::Idle => ready,
+        _ => false,
+    }
+}
+
+fn hand_over(g: &Arc<Group>, mut s: std::sync::MutexGuard<'_, Shared>, me: usize, next: usize) {
+    s.cur = next;
+    s.switches += 1;
+    g.cvs[next].notify_all();
+    while s.cur != me {
+        s = g.cvs[me].wait(s).unwrap();
+    }
+}
+
+/// scheduling point.  `forced`: the caller cannot continue (lock held by another thread / nothing to
+/// do) and must give the baton away if anybody can run.
+/// returns false when forced and nobody else can run.
+pub fn point(forced: bool) -> bool {
+    let me = ME.with(|m| m.get());
+    if me == usize::MAX {
+        return false;
+    }
+    let Some(g) = group() else { return false };
+    let ready = crate::ready_len() > 0;
+    let (n_threads, preempt) = {
+        let s = g.m.lock().unwrap();
+        (s.st.len(), s.preempt_permille)
+    };
+    if n_threads <= 1 {
+        return !forced;
+    }
+    // decisions are drawn without holding the group lock (the simulation has its own lock)
+    let want_switch = forced || crate::chance(site::PREEMPT, preempt);
+    let mut s = g.m.lock().unwrap();
+    s.points += 1;
+    // somebody passed a scheduling point: threads that failed a try-lock may try again
+    for i in 0..s.st.len() {
+        if i != me && s.st[i] == St::Blocked {
+            s.st[i] = St::Runnable;
+        }
+    }
+    let others: Vec<usize> = (0..s.st.len()).filter(|&i| i != me && eligible(&s, i, ready)).collect();
+    if others.is_empty() {
+        if forced {
+            return false;
+        }
+        return true;
+    }
+    if !want_switch {
+        return true;
+    }
+    if forced {
+        s.forced += 1;
+    }
+    drop(s);
+    let k = crate::choose(site::VTHREAD, others.len() as u32) as usize;
+    let next = others[k];
+    let s = g.m.lock().unwrap();
+    hand_over(&g, s, me, next);
+    true
+}
+
+/// the caller failed a try-lock: mark it blocked and give the baton away.
+/// returns true when the caller should try again, false when no other thread can run
+/// (the engine deadlocked on its own locks; recorded)
+pub fn lock_blocked(addr: usize) -> bool {
+    let me = ME.with(|m| m.get());
+    if me == usize::MAX {
+        return false;
+    }
+    let Some(g) = group() else { return false };
+    {
+        let mut s = g.m.lock().unwrap();
+        if s.st.len() <= 1 {
+            return false;
+        }
+        s.st[me] = St::Blocked;
+    }
+    let ok = point(true);
+    let mut s = g.m.lock().unwrap();
+    s.st[me] = St::Runnable;
+    if !ok {
+        if s.deadlock.is_none() {
+            s.deadlock = Some(format!("virtual thread {} ({}) waits for lock {:#x} and no other thread can run: {:?}", me, s.names[me], addr, s.st));
+        }
+        return false;
+    }
+    true
+}
+
+/// the executor thread has nothing ready: wait (as Idle) until a task becomes ready or everybody else is done.
+/// returns false when every other thread is done (or stuck) and nothing is ready
+pub fn idle() -> bool {
+    let me = ME.with(|m| m.get());
+    if me == usize::MAX {
+        return false;
+    }
+    let Some(g) = group() else { return false };
+    {
+        let mut s = g.m.lock().unwrap();
+        s.st[me] = St::Idle;
+    }
+    let ok = point(true);
+    let mut s = g.m.lock().unwrap();
+    s.st[me] = St::Runnable;
+    ok
+}
+
+pub fn all_others_done() -> bool {
+    let me = ME.with(|m| m.get());
+    let Some(g) = group() else { return true };
+    let s = g.m.lock().unwrap();
+    (0..s.st.len()).all(|i| i == me || s.st[i] == St::Done)
+}
+
+fn finish() {
+    let me = ME.with(|m| m.get());
+    let Some(g) = group() else { return };
+    let ready = crate::ready_len() > 0;
+    let mut s = g.m.lock().unwrap();
+    s.st[me] = St::Done;
+    for i in 0..s.st.len() {
+        if s.st[i] == St::Blocked {
+            s.st[i] = St::Runnable;
+        }
+    }
+    // hand the baton on: any eligible thread, else thread 0 (the executor, possibly idle)
+    let others: Vec<usize> = (0..s.st.len()).filter(|&i| i != me && eligible(&s, i, ready)).collect();
+    let next = if others.is_empty() { 0 } else { others[0] };
+    s.cur = next;
+    s.switches += 1;
+    g.cvs[next].notify_all();
+}
